@@ -112,8 +112,8 @@ CHECKS["C02"] = {
     "category": "model_checking",
     "technique": MC + " (history BFS with canonical-state dedup; oracle counts_as_change(mode, old, new) on stored objects)",
     "text": "For 12 trait kinds (Any, Int, Str, Float, List, Instance, AdaptsTo, Supports, Expression, Event, "
-            "Event(Int), an Event reached through PrototypedFrom) x comparison modes none/identity/equality x 12 "which handler raises" variants: every "
-            "history up to depth 3 (4 thorough) of assignments from a pool (equal-but-not-identical objects, two NaN "
+            "Event(Int), an Event reached through PrototypedFrom) x comparison modes none/identity/equality x 12 'which handler raises' variants: every "
+            "history up to depth 4 (6 thorough) of assignments from a pool (equal-but-not-identical objects, two NaN "
             "objects, a value whose == raises, values whose repr raises, converted and rejected values) and default reads; after each step "
             "all eleven handlers (static _x_changed in the class and _x_fired inherited from a base class, "
             "_anytrait_changed, two on_trait_change, two observe, on_trait_change and observe with ui dispatch, "
